@@ -217,8 +217,8 @@ Definition fl0 := mkfl false false false.
 Inductive pyrun :=
 | RUsageError                          (* message + exit 2; nothing runs *)
 | RInfo                                (* help or version text, exit 0; nothing runs *)
-| RCommand (i : nat) (code : str)      (* -c: the text [code], taken from tokens[i], is executed *)
-| RModule (i : nat) (m : str)          (* -m: module m (from tokens[i]) is located on sys.path and run *)
+| RCommand (i : nat) (code : str) (fl : pyflags)   (* -c: the text [code], from tokens[i], is executed *)
+| RModule (i : nat) (m : str) (fl : pyflags)       (* -m: module m (from tokens[i]) is found on sys.path and run *)
 | RFile (i : nat) (fl : pyflags)       (* tokens[i] is the script file *)
 | RStdin (fl : pyflags).               (* the program is read from standard input / the REPL *)
 
@@ -295,10 +295,10 @@ Fixpoint pyargs (fl : pyflags) (i : nat) (l : list str) : pyrun :=
         | CErr => RUsageError
         | CInfo => RInfo
         | CEnd => fin fl (program fl (S i) r)
-        | CCmd fl' (Some code) => fin fl' (RCommand i code)
-        | CCmd fl' None => match r with a :: _ => fin fl' (RCommand (S i) a) | [] => RUsageError end
-        | CMod fl' (Some m) => fin fl' (RModule i m)
-        | CMod fl' None => match r with a :: _ => fin fl' (RModule (S i) a) | [] => RUsageError end
+        | CCmd fl' (Some code) => fin fl' (RCommand i code fl')
+        | CCmd fl' None => match r with a :: _ => fin fl' (RCommand (S i) a fl') | [] => RUsageError end
+        | CMod fl' (Some m) => fin fl' (RModule i m fl')
+        | CMod fl' None => match r with a :: _ => fin fl' (RModule (S i) a fl') | [] => RUsageError end
         | CNext fl' false => pyargs fl' (S i) r
         | CNext fl' true => match r with _ :: r' => pyargs fl' (S (S i)) r' | [] => RUsageError end
         end
@@ -306,7 +306,7 @@ Fixpoint pyargs (fl : pyflags) (i : nat) (l : list str) : pyrun :=
 
 Definition py_cmdline (tokens : list str) : pyrun := pyargs fl0 1 (tl tokens).
 
-(* Soundness of an approval with respect to that grammar: nothing runs, or the calendar module,
+(* Soundness of an approval with respect to that grammar: nothing runs, or the calendar module (no REPL afterwards),
    or exactly the file whose analysis succeeded, from its first line, without a REPL afterwards. *)
 Section Sound.
   Variable resolve : str -> option str.
@@ -314,10 +314,10 @@ Section Sound.
   Definition sound (cwd : str) (tokens : list str) (r : pyrun) : Prop :=
     match r with
     | RUsageError | RInfo => True
-    | RModule _ m => m = $"calendar"
+    | RModule _ m fl => m = $"calendar" /\ fl_inspect fl = false
     | RFile i fl =>
         fl_inspect fl = false /\ fl_skip1 fl = false /\
         exists tok p, nth_error tokens i = Some tok /\ resolve (pjoin cwd tok) = Some p /\ analyze p = true
-    | RCommand _ _ | RStdin _ => False
+    | RCommand _ _ _ | RStdin _ => False
     end.
 End Sound.
